@@ -255,6 +255,22 @@ class Dummy:
         self.line = line
 
 
+def entries_check(lib_raw=None):
+    """every public parser entry (strict and incomplete alike) starts from the fresh state: it calls init() first"""
+    if lib_raw is None:
+        lib_raw = open(os.path.join(REPO, 'sv-parser-parser/src/lib.rs')).read()
+    failures = []
+    entries = re.findall(r'pub fn (\w+)\(s: Span\)\s*->\s*IResult<[^{]*\{\s*([^}]*)\}', lib_raw)
+    checked = len(entries)
+    if len(entries) < 5:
+        failures.append(fail('-', 'C07.entries-found', 'fewer than five public parser entries found (anchor lost)', ['C07', 'C15'], None))
+    for name, body in entries:
+        if not re.sub(r'\s+', '', body).startswith('init();'):
+            failures.append(fail(name, 'C07.entry-calls-init-first.%s' % name, 'public entry %s does not call init() first' % name, ['C07', 'C17', 'C15'], Dummy('sv-parser-parser/src/lib.rs', lib_raw[:lib_raw.index('pub fn ' + name)].count('\n') + 1)))
+    return dict(failures=failures, checked=checked)
+
+
+
 def effects_run(fns, table, comb):
     failures = []
     checked = 0
@@ -380,13 +396,9 @@ def effects_run(fns, table, comb):
         checked += 1
         if not re.search(r'%s\.with\(\|\w+\|\{?\w+\.borrow_mut\(\)\.clear\(\);?\}?\)' % tl, body):
             failures.append(fail(fnname, 'C07.%s-empties-%s' % (fnname, tl), '%s no longer empties %s' % (fnname, tl), ['C07'], f or Dummy('sv-parser-parser/src/utils.rs', 1)))
-    entries = re.findall(r'pub fn (\w+)\(s: Span\)\s*->\s*IResult<[^{]*\{\s*([^}]*)\}', lib_raw)
-    checked += len(entries)
-    if len(entries) < 5:
-        failures.append(fail('-', 'C07.entries-found', 'fewer than five public parser entries found (anchor lost)', ['C07'], None))
-    for name, body in entries:
-        if not re.sub(r'\s+', '', body).startswith('init();'):
-            failures.append(fail(name, 'C07.entry-calls-init-first.%s' % name, 'public entry %s does not call init() first' % name, ['C07', 'C17'], Dummy('sv-parser-parser/src/lib.rs', lib_raw[:lib_raw.index('pub fn ' + name)].count('\n') + 1)))
+    ec = entries_check(lib_raw)
+    checked += ec['checked']
+    failures += ec['failures']
     n_rec = sum(1 for f in fns if f.recursive)
     checked += 1
     if n_rec > 128:
